@@ -214,6 +214,8 @@ var errScripted = errors.New("scripted transmission failure")
 
 // RSim is one running router case.
 type RSim struct {
+	firstBytes map[int]string
+	retxDiff   string
 	nextStatus int // device-state octet of the next gated lost indication
 	Plan       *RPlan
 	Sock       *common.MemSock
@@ -263,6 +265,7 @@ type RResult struct {
 	RetainSamples int
 	Stalls        int
 	ServeStalled  int // frames handed to the socket that the open client had not taken after the limit
+	RetxDiff      string // a retransmission whose octets differ from the first transmission of the same message
 }
 
 func (s *RSim) send(lane, tag int) error {
@@ -273,7 +276,7 @@ func (s *RSim) send(lane, tag int) error {
 	if s.Plan.Group {
 		err = s.GR.Send(knx.GroupEvent{Command: knx.GroupWrite, Source: cemi.NewIndividualAddr3(1, 1, 7), Destination: cemi.NewGroupAddr3(1, 2, 3), Data: tagData(tag)})
 	} else {
-		err = s.R.Send(indMsg(tag))
+		err = s.R.Send(inMsg(tag, false)) // indications mostly, some confirmations and requests, varied headers
 	}
 	es := ""
 	if err != nil {
@@ -378,6 +381,15 @@ func (s *RSim) Run() *RResult {
 		if ri, ok := f.Svc.(*knxnet.RoutingInd); ok {
 			e.Tag = tagOf(ri.Payload)
 			s.mu.Lock()
+			// a retransmission is the message that was sent, octet for octet (kind of message included)
+			if s.firstBytes == nil {
+				s.firstBytes = map[int]string{}
+			}
+			if was, seen := s.firstBytes[e.Tag]; !seen {
+				s.firstBytes[e.Tag] = string(f.Bytes)
+			} else if was != string(f.Bytes) && s.retxDiff == "" {
+				s.retxDiff = fmt.Sprintf("the message with tag %d was first transmitted as %x and is transmitted again as %x", e.Tag, was, f.Bytes)
+			}
 			if s.failTags[e.Tag] {
 				err = errScripted
 				delete(s.failTags, e.Tag) // only the original transmission fails
@@ -638,6 +650,9 @@ func (s *RSim) Run() *RResult {
 	s.Sock.Close()
 	<-s.Sock.PumpDone()
 	res.Stalls = int(atomic.LoadInt32(&s.stalls))
+	s.mu.Lock()
+	res.RetxDiff = s.retxDiff
+	s.mu.Unlock()
 	res.Events = s.snapshot()
 	return res
 }
